@@ -193,15 +193,20 @@ static bool setup(World &w, const std::vector<std::string> &op, uint64_t hash)
     if (w.views.size() > 4) return false;
   }
   // provider, context, registry, views and selectors through the constructors or the *Factory::Create overloads, chosen by
-  // the hash of the case text (metrics_factories.h); the views are added with MeterProvider::AddView afterwards
-  w.sdk_lo = tick();
-  {
-    auto built  = vhm::make_provider(hash, vhm::mix(hash, 1) % 2 ? vhm::make_registry(hash) : nullptr, nullptr, nullptr);
+  // the hash of the case text (metrics_factories.h); the views are either put into the ViewRegistry that is handed to the
+  // provider, or added with MeterProvider::AddView afterwards (then the overloads without a registry are used as well)
+  std::unique_ptr<sdkm::ViewRegistry> registry;
+  if (vhm::mix(hash, 1) % 2) registry = vhm::make_registry(hash);
+  auto make_it = [&]() {
+    w.sdk_lo    = tick();
+    auto built  = vhm::make_provider(hash, std::move(registry), nullptr, nullptr);
     w.provider  = built.provider;
     w.ctx       = built.ctx;
-  }
-  w.sdk_hi = tick();
-  if (w.ctx) w.sdk_start = w.ctx->GetSDKStartTime().time_since_epoch().count();
+    w.sdk_hi    = tick();
+    if (w.ctx) w.sdk_start = w.ctx->GetSDKStartTime().time_since_epoch().count();
+  };
+  const bool views_first = registry != nullptr;
+  if (!views_first) make_it();
   for (size_t g = 0; g < w.views.size(); g++)
   {
     std::string iname = "i" + std::to_string(w.views[g].first);
@@ -212,8 +217,10 @@ static bool setup(World &w, const std::vector<std::string> &op, uint64_t hash)
     const std::string vdesc = g % 3 == 2 ? "vd" + std::to_string(g) : "";
     auto view = vhm::make_view(vhm::mix(hash, 300 + g), "v" + std::to_string(g), vdesc, "",
                                g % 2 == 1 ? sdkm::AggregationType::kSum : sdkm::AggregationType::kDefault);
-    w.provider->AddView(std::move(isel), std::move(msel), std::move(view));
+    if (views_first) registry->AddView(std::move(isel), std::move(msel), std::move(view));
+    else w.provider->AddView(std::move(isel), std::move(msel), std::move(view));
   }
+  if (views_first) make_it();
   for (auto t : temps)
   {
     auto r = std::make_shared<TestReader>(t.first);
